@@ -13,5 +13,5 @@ for id in "$@"; do
   echo "$id $tier rc=$rc violations=$nviol  $first"
 done
 git -C /repo checkout -- .
-rm -f /verif/evidence/.seeded-scratch.json /verif/evidence/C08-tsan.json.seeded 2>/dev/null
+rm -f /verif/evidence/.seeded-scratch.json /verif/evidence/.seeded-scratch-tsan.json /verif/evidence/C08-tsan.json.seeded 2>/dev/null
 git -C /repo status --porcelain --untracked-files=no | head -3
